@@ -24,12 +24,16 @@ def mdiff {α} [BEq α] : List α → List α → List α
   | l, [] => l
   | l, b :: bs => mdiff (l.erase b) bs
 
+/-- `a ⊆ b` as multisets -/
+def msub {α} [BEq α] (a b : List α) : Bool := (mdiff a b).isEmpty
+
 /-- everything observed about one call -/
 structure CallObs where
   payloads : List Payload                       -- argument of `CheckUpkeeps`
   dones    : List (List Payload × BatchOut)     -- calls seen by the pipeline with their answers, in completion order
   ret      : Ret                                -- what `CheckUpkeeps` returned
   hist     : List CheckResult                   -- results of pipeline calls that succeeded on this runner before the call's look-ups
+  cancelled : Bool                              -- the caller's context was done (cancelled / deadline passed) when the call returned
 
 namespace CallObs
 variable (o : CallObs)
@@ -60,14 +64,21 @@ def askedOk : Bool := (mdiff o.seen o.payloads).isEmpty
 /-- every result of a successful batch is returned (none lost) -/
 def noneLostOk : Bool := o.ret.err || (mdiff o.fresh o.ret.values).isEmpty
 /-- the remaining returned results are one per payload that was not run, each for exactly that
-payload's work id, block number and block hash (nothing stale, nothing duplicated, nothing foreign) -/
-def servedOk : Bool := o.ret.err || (o.rest.map keyR).isPerm (o.unrun.map keyP)
+payload's work id, block number and block hash (nothing stale, nothing duplicated, nothing foreign).
+Only a call whose context was done may leave payloads both unrun and unanswered (batches that were
+never submitted): then at most one such result per unrun payload. -/
+def servedOk : Bool :=
+  o.ret.err ||
+  (if o.cancelled then msub (o.rest.map keyR) (o.unrun.map keyP)
+   else (o.rest.map keyR).isPerm (o.unrun.map keyP))
 /-- what is served from the cache is a result of an earlier successful pipeline execution -/
 def cachedOk : Bool := o.ret.err || o.rest.all (fun r => r.pes == 0 && o.hist.contains r)
-/-- under the pipeline contract: exactly one result per payload outside the failed batches -/
+/-- under the pipeline contract: exactly one result per payload outside the failed batches (at most
+one, and only for such payloads, when the caller's context was done) -/
 def onePerPayloadOk : Bool :=
   o.ret.err || !o.dones.all contractOk ||
-  (o.ret.values.map keyR).isPerm ((mdiff o.payloads o.failed).map keyP)
+  (if o.cancelled then msub (o.ret.values.map keyR) ((mdiff o.payloads o.failed).map keyP)
+   else (o.ret.values.map keyR).isPerm ((mdiff o.payloads o.failed).map keyP))
 
 def ok : Bool := o.errOk && o.askedOk && o.noneLostOk && o.servedOk && o.cachedOk && o.onePerPayloadOk
 
@@ -93,26 +104,27 @@ def histOf : List Ev → List CheckResult
   | .done _ _ o :: es => o.res.getD [] ++ histOf es
   | .start _ _ _ :: es => histOf es
 
-def retOf (rets : List (Nat × Ret)) (cid : Nat) : Option Ret := (rets.find? (fun x => x.1 == cid)).map (·.2)
+/-- return value of call `cid` and whether its context was done at that moment -/
+def retOf (rets : List (Nat × Ret × Bool)) (cid : Nat) : Option (Ret × Bool) := (rets.find? (fun x => x.1 == cid)).map (·.2)
 
 /-- observations of the calls of a history: for the `start` at position `i`, the later `done`s of
 that call id, the call's return value, and the successful results before position `i` -/
-def obsOf (rets : List (Nat × Ret)) : List Ev → List Ev → List (Nat × Option CallObs)
+def obsOf (rets : List (Nat × Ret × Bool)) : List Ev → List Ev → List (Nat × Option CallObs)
   | _, [] => []
   | before, e :: es =>
     (match e with
      | .start cid _ ps =>
        [(cid, (retOf rets cid).map fun r =>
-          { payloads := ps, dones := donesOf cid es, ret := r, hist := histOf before.reverse })]
+          { payloads := ps, dones := donesOf cid es, ret := r.1, hist := histOf before.reverse, cancelled := r.2 })]
      | .done _ _ _ => []) ++ obsOf rets (e :: before) es
 
 /-- C13 over a history: every call that returned satisfies the per-call predicate -/
-def specTrace (evs : List Ev) (rets : List (Nat × Ret)) : Bool :=
+def specTrace (evs : List Ev) (rets : List (Nat × Ret × Bool)) : Bool :=
   (obsOf rets [] evs).all fun x => match x.2 with
     | some o => o.ok
     | none => false
 
-def explainTrace (evs : List Ev) (rets : List (Nat × Ret)) : String :=
+def explainTrace (evs : List Ev) (rets : List (Nat × Ret × Bool)) : String :=
   match (obsOf rets [] evs).find? (fun x => match x.2 with | some o => !o.ok | none => true) with
   | none => "ok"
   | some (_, some o) => o.explain
@@ -139,18 +151,24 @@ for that payload's work id, check block number and check block hash -/
 def Contract (bs : List (List Payload)) (out : Nat → BatchOut) : Prop :=
   ∀ i rs, (out i).res = some rs → rs.map keyR ~ (bs.getD i []).map keyP
 
-/-- payloads of the batches that failed -/
-def failedPayloads (bs : List (List Payload)) (out : Nat → BatchOut) : List Payload :=
-  (List.range bs.length).flatMap (fun i => if (out i).res.isNone then bs.getD i [] else [])
+/-- payloads of the batches that failed, among the first `k` batches -/
+def failedPayloads (bs : List (List Payload)) (out : Nat → BatchOut) (k : Nat) : List Payload :=
+  (List.range k).flatMap (fun i => if (out i).res.isNone then bs.getD i [] else [])
+
+/-- payloads of the batches that were never submitted (only `k` were) -/
+def abandoned (bs : List (List Payload)) (k : Nat) : List Payload := (bs.drop k).flatten
 
 /-- a history `evs` with return values `rets` is one the model produces: every call's batches (as
-seen by the pipeline after its `start`) are the model's batches in some delivery order, and its
-return value is `parallelCheck` on the cache left by the events before its `start` -/
-def Explained (E : Nat) (rets : List (Nat × Ret)) (evs : List Ev) : Prop :=
+seen by the pipeline after its `start`) are the first `k` of the model's batches in some delivery
+order — all of them unless the caller's context was done — and its return value is `parallelCheck`
+on the cache left by the events before its `start` -/
+def Explained (E : Nat) (rets : List (Nat × Ret × Bool)) (evs : List Ev) : Prop :=
   ∀ pre cid now ps post, evs = pre ++ Ev.start cid now ps :: post →
-    ∃ out order, order ~ List.range (batches (cacheAt E [] pre) now ps).length ∧
+    ∃ out order k cancelled, k ≤ (batches (cacheAt E [] pre) now ps).length ∧
+      (k < (batches (cacheAt E [] pre) now ps).length → cancelled = true) ∧
+      order ~ List.range k ∧
       donesOf cid post = order.map (fun i => ((batches (cacheAt E [] pre) now ps).getD i [], out i)) ∧
-      retOf rets cid = some (parallelCheck E (cacheAt E [] pre) now ps out order).2
+      retOf rets cid = some ((parallelCheck E (cacheAt E [] pre) now ps out order).2, cancelled)
 
 end
 
